@@ -4,6 +4,8 @@ Used where a property is an identity between matrix expressions that involve inv
 (C17, C18): keeping numerator and denominator separate makes every final query polynomial
 (no z3 division terms), which is what z3's nlsat decides quickly (DESIGN.md 2.3).
 """
+from fractions import Fraction
+
 import numpy as np
 import z3
 
@@ -11,18 +13,121 @@ from . import core
 from .num import Sym, lift, liftable, _real, DomainError
 
 
+DIV_MODE = ["branch"]
+ASSUMED = [0]
+
+
+class assume_nonzero_divisors:
+    """Inside this block a division by a rational function adds `divisor != 0` to the path
+    condition instead of asking the solver to prove it (used where that proof is a separate,
+    explicitly stated lemma of the harness)."""
+
+    def __enter__(self):
+        self.old = DIV_MODE[0]
+        DIV_MODE[0] = "assume"
+
+    def __exit__(self, *a):
+        DIV_MODE[0] = self.old
+        return False
+
+
 def _r(x):
     return _real(lift(x))
 
 
+def _norm(t):
+    """normal form of a polynomial factor (sum of monomials when that stays small)."""
+    t = z3.simplify(t)
+    if z3.is_rational_value(t) or z3.is_int_value(t) or z3.is_const(t):
+        return t
+    try:
+        t2 = z3.simplify(t, som=True, som_blowup=2000)
+    except z3.Z3Exception:
+        return t
+    return t2 if len(t2.sexpr()) <= 4 * len(t.sexpr()) + 200 else t
+
+
+def _numeral(t):
+    if z3.is_int_value(t):
+        return Fraction(t.as_long())
+    if z3.is_rational_value(t):
+        return Fraction(t.numerator_as_long(), t.denominator_as_long())
+    return None
+
+
+def _prod(coef, fs):
+    t = None
+    for f in fs:
+        t = f if t is None else t * f
+    if t is None:
+        return z3.RealVal(str(coef)) if coef.denominator != 1 else z3.RealVal(coef.numerator)
+    if coef == 1:
+        return t
+    return z3.RealVal(str(coef)) * t
+
+
+def _cancel(nf, df):
+    """remove structurally equal factors from numerator and denominator factor lists."""
+    nf, df = list(nf), list(df)
+    out = []
+    for f in nf:
+        for k, g in enumerate(df):
+            if f.eq(g):
+                del df[k]
+                break
+        else:
+            out.append(f)
+    return out, df
+
+
+def _split(t):
+    """z3 polynomial term -> (Fraction coefficient, [factors]) with numerals pulled out."""
+    v = _numeral(t)
+    if v is not None:
+        return v, []
+    if z3.is_app_of(t, z3.Z3_OP_MUL):
+        c = Fraction(1)
+        fs = []
+        for ch in t.children():
+            cc, ff = _split(ch)
+            c *= cc
+            fs += ff
+        return c, fs
+    if z3.is_app_of(t, z3.Z3_OP_UMINUS):
+        c, fs = _split(t.arg(0))
+        return -c, fs
+    return Fraction(1), [t]
+
+
 class Q:
-    """num/den with den != 0 established when the Q is created."""
-    __slots__ = ("n", "d")
+    """Rational function c * prod(nf) / prod(df): c a Fraction, nf/df lists of polynomial z3
+    terms (each in normal form).  Structurally equal factors cancel, so that round trips such
+    as x -> q -> x do not blow up the degrees.  Every denominator factor is non-zero by
+    construction (established by a branch or by a stated assumption when the Q was built)."""
+    __slots__ = ("c", "nf", "df")
     __hash__ = None
 
-    def __init__(self, n, d=None):
-        self.n = n
-        self.d = z3.RealVal(1) if d is None else d
+    def __init__(self, n=None, d=None, c=Fraction(1), nf=None, df=None):
+        if nf is not None:
+            self.c, self.nf, self.df = c, nf, df
+            return
+        cn, fn = _split(_norm(n))
+        if d is None:
+            cd, fd = Fraction(1), []
+        else:
+            cd, fd = _split(_norm(d))
+        fn, fd = _cancel(fn, fd)
+        self.c = (cn / cd) if cn != 0 else Fraction(0)
+        self.nf = fn if cn != 0 else []
+        self.df = fd if cn != 0 else []
+
+    @property
+    def n(self):
+        return _prod(self.c, self.nf)
+
+    @property
+    def d(self):
+        return _prod(Fraction(1), self.df)
 
     @staticmethod
     def of(x):
@@ -30,11 +135,8 @@ class Q:
             return x
         return Q(_r(x))
 
-    def _isone(self):
-        return z3.is_rational_value(self.d) and self.d.numerator_as_long() == self.d.denominator_as_long()
-
     def __repr__(self):
-        return "Q(%s / %s)" % (str(self.n)[:60], str(self.d)[:40])
+        return "Q(%s / %s)" % (str(self.n)[:70].replace("\n", " "), str(self.d)[:50].replace("\n", " "))
 
     def _ok(self, o):
         if isinstance(o, np.ndarray) and o.ndim > 0:
@@ -45,14 +147,32 @@ class Q:
         if not self._ok(o):
             return NotImplemented
         o = Q.of(o)
-        if self.d.eq(o.d):
-            return Q(self.n + o.n, self.d)
-        return Q(self.n * o.d + o.n * self.d, self.d * o.d)
+        if self.c == 0:
+            return o
+        if o.c == 0:
+            return self
+        # common denominator factors (structural)
+        d1, d2 = list(self.df), list(o.df)
+        common = []
+        for f in list(d1):
+            for k, g in enumerate(d2):
+                if f.eq(g):
+                    common.append(f)
+                    d1.remove(f)
+                    del d2[k]
+                    break
+        num = _prod(self.c, self.nf + d2) + _prod(o.c, o.nf + d1)
+        r = Q(num)
+        nf, df = _cancel(r.nf, common + d1 + d2)
+        return Q(c=r.c, nf=nf if r.c != 0 else [], df=df if r.c != 0 else [])
 
     __radd__ = __add__
 
     def __neg__(self):
-        return Q(-self.n, self.d)
+        return Q(c=-self.c, nf=self.nf, df=self.df)
+
+    def __pos__(self):
+        return self
 
     def __sub__(self, o):
         if not self._ok(o):
@@ -68,14 +188,25 @@ class Q:
         if not self._ok(o):
             return NotImplemented
         o = Q.of(o)
-        return Q(self.n * o.n, self.d * o.d)
+        c = self.c * o.c
+        if c == 0:
+            return Q(c=Fraction(0), nf=[], df=[])
+        nf, df = _cancel(self.nf + o.nf, self.df + o.df)
+        return Q(c=c, nf=nf, df=df)
 
     __rmul__ = __mul__
 
     def recip(self):
-        if core.branch(z3.simplify(self.n == 0, som=True, som_blowup=100000)):
+        if self.c == 0:
             raise DomainError("division by zero (rational function)")
-        return Q(self.d, self.n)
+        if self.nf:
+            zero = z3.Or(*[f == 0 for f in self.nf])
+            if DIV_MODE[0] == "assume":
+                core.assume_fact(z3.Not(zero))
+                ASSUMED[0] += 1
+            elif core.branch(zero):
+                raise DomainError("division by zero (rational function)")
+        return Q(c=1 / self.c, nf=list(self.df), df=list(self.nf))
 
     def __truediv__(self, o):
         if not self._ok(o):
@@ -88,24 +219,30 @@ class Q:
         return Q.of(o) * self.recip()
 
     def __pow__(self, k):
-        if isinstance(k, int) and 0 <= k <= 6:
+        if isinstance(k, (int, np.integer)) and -6 <= k <= 6:
+            base = self if k >= 0 else self.recip()
             r = Q(z3.RealVal(1))
-            for _ in range(k):
-                r = r * self
+            for _ in range(abs(int(k))):
+                r = r * base
             return r
         return NotImplemented
 
-    # comparisons: cross-multiplied; sign-safe through squared denominators
+    def __abs__(self):
+        return self if core.branch((self >= 0).t) else -self
+
+    # comparisons: sign of (self - o) = sign(numerator * denominator)
     def _cmp(self, o, op):
         if not self._ok(o):
             return NotImplemented
-        o = Q.of(o)
+        diff = self - Q.of(o)
         if op in ("eq", "ne"):
-            t = (self.n * o.d == o.n * self.d)
+            t = (diff.n == 0)
             return Sym(t if op == "eq" else z3.Not(t))
-        l = self.n * self.d * o.d * o.d
-        r = o.n * o.d * self.d * self.d
-        return Sym({"lt": l < r, "le": l <= r, "gt": l > r, "ge": l >= r}[op])
+        s = diff.n
+        for f in diff.df:
+            s = s * f
+        zero = z3.RealVal(0)
+        return Sym({"lt": s < zero, "le": s <= zero, "gt": s > zero, "ge": s >= zero}[op])
 
     def __eq__(self, o):
         return self._cmp(o, "eq")
@@ -133,6 +270,8 @@ class Q:
 
     def sym(self):
         """plain Sym with a z3 division term."""
+        if not self.df:
+            return Sym(self.n)
         return Sym(self.n / self.d)
 
 
@@ -195,6 +334,10 @@ def adj_inv(a, *args, **kw):
 
 def poly_eq(a, b):
     """Sym(Bool): a == b as a polynomial identity (sum-of-monomials normal form first)."""
-    a, b = Q.of(a), Q.of(b)
-    t = z3.simplify(a.n * b.d - b.n * a.d, som=True, som_blowup=10000000)
+    d = Q.of(a) - Q.of(b)
+    if d.c == 0:
+        return Sym(z3.BoolVal(True))
+    t = d.n
+    if not (z3.is_rational_value(t) or z3.is_int_value(t)):
+        t = z3.simplify(t, som=True, som_blowup=1000000)
     return Sym(t == 0)
